@@ -28,11 +28,15 @@ DoAdd == /\ gen < MaxGen
                 Step(r.subs, r.nodes, IF nid \in DOMAIN nodes THEN dead \cup {<<nid, nodes[nid].gen>>} ELSE dead)
                 /\ H("add", 0, 0, nid, kind)
          /\ gen' = gen + 1
+DoAddSdo == \E nid \in DOMAIN nodes :
+              /\ nodes[nid].kind = "remote" /\ Len(nodes[nid].extra) < 1
+              /\ LET r == AddSdo(subs, nodes, nid, 1440 + nid) IN
+                   Step(r.subs, r.nodes, dead) /\ gen' = gen /\ H("addsdo", 1440 + nid, 0, nid, "")
 DoRemove == \E nid \in DOMAIN nodes :
               LET r == RemoveNode(subs, nodes, nid) IN
                 Step(r.subs, r.nodes, dead \cup {<<nid, nodes[nid].gen>>}) /\ gen' = gen /\ H("remove", 0, 0, nid, "")
 
-Next == depth < Depth /\ (DoSub \/ DoUnsub \/ DoUnsubAll \/ DoAdd \/ DoRemove)
+Next == depth < Depth /\ (DoSub \/ DoUnsub \/ DoUnsubAll \/ DoAdd \/ DoAddSdo \/ DoRemove)
 Spec == Init /\ [][Next]_vars
 
 AllCbs == UNION {{subs[id][i] : i \in 1..Len(subs[id])} : id \in DOMAIN subs}
@@ -41,7 +45,7 @@ NoEmpty == \A id \in DOMAIN subs : subs[id] # <<>>
 NoStaleHandler == \A cb \in AllCbs : cb[1] = 1 => <<cb[2], cb[3]>> \notin dead
 LiveHandlersPresent ==
     \A nid \in DOMAIN nodes :
-      LET hs == Handlers(nodes[nid].kind, nid, nodes[nid].gen) IN
+      LET hs == AllHandlers(nodes[nid], nid) IN
         \A i \in 1..Len(hs) : InSeq(SubsOf(subs, hs[i][1]), hs[i][2])
 GenPrint == depth = Depth => PrintT(<<"BEH", ToJson(hist)>>)
 LssKept == InSeq(SubsOf(subs, LssId), LssCb)
